@@ -111,6 +111,7 @@ PROPS["C09"]["assumptions"] = PROPS["C09"]["assumptions"] + [
     "lexical side (Props/C09d.v): for EVERY input the lexical parser model's result depends on the whitespace-free text only (idealize_env s = idealize_env s' -> lex_parse s = lex_parse s'; inserting any White_Space code points anywhere changes nothing), proved via fuel independence of the term layer; hypothesis: non-empty opening brackets (true of the shipped tables by computation)",
 ]
 PROPS["C01"]["props"] = PROPS["C01"]["props"] + ["Props/C01d.v"]
+PROPS["C01"]["props"] = PROPS["C01"]["props"] + ["Props/C01e.v"]   # Han, unconditional on keyword-free names (with C09 / C15 corollaries)
 PROPS["C09"]["props"] = PROPS["C09"]["props"] + ["Props/C09e.v"]
 PROPS["C15"]["props"] = PROPS["C15"]["props"] + ["Props/C15d.v"]
 PROPS["C15"]["run"] = ["Run/EnumRun.v", "Run/LexRun.v"]
